@@ -151,7 +151,7 @@ class Token(metaclass=TokenMeta):
             limit = 1 << bits
             # TODO: is this an issue?
             # assert value >= 0, value
-            if value >= limit:
+            if value >= limit or value < -(limit >> 1):
                 raise ValueError(
                     f"value {value} cannot be fit into {bits} bits"
                 )
